@@ -442,7 +442,7 @@ func Throw[T any](err error) Observable[T] {
 // Observer that subscribes to the Observable.
 // Play: https://go.dev/play/p/wyVzordmkK0
 func Defer[T any](factory func() Observable[T]) Observable[T] {
-	return NewUnsafeObservableWithContext(func(ctx context.Context, destination Observer[T]) Teardown {
+	return NewObservableWithContext(func(ctx context.Context, destination Observer[T]) Teardown {
 		sub := factory().SubscribeWithContext(ctx, destination)
 
 		return sub.Unsubscribe
